@@ -4,6 +4,8 @@ import (
 	"bytes"
 	"compress/flate"
 	"context"
+	"crypto/sha256"
+	"crypto/sha512"
 	"encoding/base64"
 	"encoding/json"
 	"encoding/xml"
@@ -118,6 +120,10 @@ type c09In struct {
 	Lo       *c09Lo   `json:"lo,omitempty"`
 	Rq       *c09Rq   `json:"rq,omitempty"`
 	Md       *c09MD   `json:"md,omitempty"`
+	Trust    string   `json:"trust,omitempty"` // how the SP trusts the IdP: md1 | md2 | pin | fp256 | fp512
+	Ki       string   `json:"ki,omitempty"`    // what the KeyInfo of every signature in the message holds
+	Shape    string   `json:"shape,omitempty"` // nesting shape of EntitiesDescriptor elements
+	Depth    string   `json:"depth,omitempty"` // depth class of the nesting
 }
 
 type c09Pred struct {
@@ -208,9 +214,10 @@ func c09Encrypt(plain []byte) *etree.Element {
 	return ea
 }
 
-func (c *c09Ctx) assertionEl(a c09Assn, n int) *etree.Element {
+func (c *c09Ctx) assertionEl(a c09Assn, n int, ki string) *etree.Element {
 	k, _ := json.Marshal(a)
-	return c.memo(fmt.Sprintf("assn/%d/%s", n, k), func() any {
+	mk := fmt.Sprintf("assn/%d/%s/%s", n, ki, k)
+	return c.memo(mk, func() any {
 		s := AssnSpec{ID: fmt.Sprintf("id-assn-%d-%s", n, hashKey(string(k))), IssueInstant: c09Instant(c.now),
 			NoSubject: !a.Subj, NoConditions: a.Cond == "absent", NoAuthn: !a.Authn,
 			NotBefore: c09Instant(c.now.Add(-time.Minute)), NotOnOrAfter: c09Instant(c.now.Add(c09MaxDelay)),
@@ -238,6 +245,9 @@ func (c *c09Ctx) assertionEl(a c09Assn, n int) *etree.Element {
 			s.SignWith = key("idp1")
 		}
 		el := buildAssertion(s)
+		if a.Sig {
+			c09SetKeyInfo(el, ki, mk)
+		}
 		switch a.Enc {
 		case "yes":
 			return c09Encrypt(docBytes(el))
@@ -270,9 +280,10 @@ func (c *c09Ctx) assertionEl(a c09Assn, n int) *etree.Element {
 }
 
 // responseEl builds (once) the Response of the vector; extra is a huge attribute value or "".
-func (c *c09Ctx) responseEl(r *c09Resp, extra string) *etree.Element {
+func (c *c09Ctx) responseEl(r *c09Resp, extra string, ki string) *etree.Element {
 	k, _ := json.Marshal(r)
-	return c.memo(fmt.Sprintf("resp/%d/%s", len(extra), k), func() any {
+	mk := fmt.Sprintf("resp/%d/%s/%s", len(extra), ki, k)
+	return c.memo(mk, func() any {
 		s := RespSpec{ID: "id-resp-" + hashKey(string(k)), IssueInstant: c09Instant(c.now)}
 		if r.Irt {
 			s.InResponseTo = sp(c09ReqID)
@@ -291,25 +302,22 @@ func (c *c09Ctx) responseEl(r *c09Resp, extra string) *etree.Element {
 			s.Status = sp(statusOK)
 		}
 		for i, a := range r.Assns {
-			s.Assertions = append(s.Assertions, c.assertionEl(a, i+1).Copy())
-		}
-		if extra == "" {
-			if r.Sig {
-				s.SignWith = key("idp1")
-			}
-			return buildResponse(s)
+			s.Assertions = append(s.Assertions, c.assertionEl(a, i+1, ki).Copy())
 		}
 		el := buildResponse(s)
-		el.CreateAttr("Padding", extra)
+		if extra != "" {
+			el.CreateAttr("Padding", extra)
+		}
 		if r.Sig {
 			el = signEnveloped(el, key("idp1"), SigOpts{})
+			c09SetKeyInfo(el, ki, mk)
 		}
 		return el
 	}).(*etree.Element)
 }
 
 // envelopeXML wraps the response in an ArtifactResponse inside a SOAP envelope.
-func (c *c09Ctx) envelopeXML(e *c09Env, r *c09Resp, resolveID string, res string, extra string) []byte {
+func (c *c09Ctx) envelopeXML(e *c09Env, r *c09Resp, resolveID string, res string, extra string, ki string) []byte {
 	mk := func(id string) *etree.Element {
 		el := etree.NewElement("samlp:ArtifactResponse")
 		el.CreateAttr("xmlns:saml", nsAssertion)
@@ -333,10 +341,11 @@ func (c *c09Ctx) envelopeXML(e *c09Env, r *c09Resp, resolveID string, res string
 			el.CreateElement("samlp:Status").CreateElement("samlp:StatusCode").CreateAttr("Value", statusOK)
 		}
 		if e.Inner {
-			el.AddChild(c.responseEl(r, "").Copy())
+			el.AddChild(c.responseEl(r, "", ki).Copy())
 		}
 		if e.Sig {
 			el = signEnveloped(el, key("idp1"), SigOpts{})
+			c09SetKeyInfo(el, ki, "artresp/"+id)
 		}
 		return el
 	}
@@ -369,11 +378,136 @@ func (c *c09Ctx) envelopeXML(e *c09Env, r *c09Resp, resolveID string, res string
 }
 
 // ---------------------------------------------------------------------------
+// the KeyInfo of a signature, the trust configuration of the SP
+
+// c09SetKeyInfo gives the ds:Signature child of el the KeyInfo of class ki.  KeyInfo is outside
+// the digest and outside SignedInfo: the signature value stays the trusted signer's.  The concrete
+// representative of a class is drawn from label (the identity of the abstract document), not
+// from the vector, because documents are shared between vectors.
+func c09SetKeyInfo(el *etree.Element, ki string, label string) {
+	if ki == "" || ki == "cert" {
+		return
+	}
+	var sig *etree.Element
+	for _, ch := range el.ChildElements() {
+		if ch.Tag == "Signature" {
+			sig = ch
+		}
+	}
+	if sig == nil {
+		panic("c09SetKeyInfo: no Signature")
+	}
+	kinfo := sig.FindElement("./KeyInfo")
+	xd := sig.FindElement("./KeyInfo/X509Data")
+	ce := sig.FindElement("./KeyInfo/X509Data/X509Certificate")
+	if kinfo == nil || xd == nil || ce == nil {
+		panic("c09SetKeyInfo: the signer wrote no KeyInfo/X509Data/X509Certificate")
+	}
+	rng := newRand("c09-keyinfo/" + label)
+	clear := func(e *etree.Element) {
+		for len(e.Child) > 0 {
+			e.RemoveChildAt(0)
+		}
+	}
+	own := ce.Text()
+	switch ki {
+	case "two":
+		xd.CreateElement(ce.FullTag()).SetText(key("idp2").CertB64())
+	case "certcomment":
+		if rng.Intn(2) == 0 {
+			ce.CreateComment(" the signing certificate ")
+		} else {
+			clear(ce)
+			ce.CreateComment(" the signing certificate ")
+			ce.CreateText(own)
+		}
+	case "empty":
+		clear(ce)
+	case "ws":
+		clear(ce)
+		ce.CreateText([]string{" ", "\n\t  \n", "\r\n"}[rng.Intn(3)])
+	case "comment":
+		clear(ce)
+		if rng.Intn(2) == 0 {
+			ce.CreateComment(" no certificate ")
+		} else {
+			ce.CreateProcInst("cert", "none")
+		}
+	case "nocert":
+		xd.RemoveChild(ce)
+	case "nokeyinfo":
+		sig.RemoveChild(kinfo)
+	case "rsakv":
+		clear(kinfo)
+		kv := kinfo.CreateElement(kinfo.Space + ":KeyValue").CreateElement(kinfo.Space + ":RSAKeyValue")
+		pub := key("idp1").RSA().PublicKey
+		kv.CreateElement(kinfo.Space + ":Modulus").SetText(base64.StdEncoding.EncodeToString(pub.N.Bytes()))
+		kv.CreateElement(kinfo.Space + ":Exponent").SetText("AQAB")
+	case "garbage":
+		g := make([]byte, 300)
+		rng.Read(g)
+		clear(ce)
+		ce.CreateText([]string{"@@@ not * base64 @@@", base64.StdEncoding.EncodeToString(g), own[:len(own)/2], own[:len(own)-3], "AAAA"}[rng.Intn(5)])
+	case "other":
+		clear(ce)
+		ce.CreateText(key("att").CertB64())
+	default:
+		panic("unknown KeyInfo class " + ki)
+	}
+}
+
+// c09Fingerprint is the form the library compares with: upper-case hex octets joined by colons.
+func c09Fingerprint(sum []byte) string {
+	parts := make([]string, len(sum))
+	for i, b := range sum {
+		parts[i] = fmt.Sprintf("%02X", b)
+	}
+	return strings.Join(parts, ":")
+}
+
+// c09SPFor returns a service provider that trusts the harness IdP key "idp1" in the way the
+// vector says.  With a pinned certificate or fingerprint the metadata carries another certificate.
+func c09SPFor(in *c09In) *saml.ServiceProvider {
+	idp1, idp2 := key("idp1"), key("idp2")
+	var s *saml.ServiceProvider
+	switch in.Trust {
+	case "", "md1":
+		s = newSP(idpMetadata([]keyUse{{"signing", idp1.CertB64()}}))
+	case "md2":
+		s = newSP(idpMetadata([]keyUse{{"signing", idp2.CertB64()}, {"", idp1.CertB64()}, {"encryption", key("idpenc").CertB64()}}))
+	case "pin":
+		s = newSP(idpMetadata([]keyUse{{"signing", idp2.CertB64()}}))
+		b := idp1.CertB64()
+		var w strings.Builder
+		for i := 0; i < len(b); i += 64 {
+			w.WriteString(b[i:min(i+64, len(b))])
+			w.WriteString("\n")
+		}
+		s.IDPCertificate = sp(w.String())
+	case "fp256":
+		s = newSP(idpMetadata([]keyUse{{"signing", idp2.CertB64()}}))
+		sum := sha256.Sum256(idp1.Cert.Raw)
+		s.IDPCertificateFingerprint = sp(c09Fingerprint(sum[:]))
+		s.IDPCertificateFingerprintAlgorithm = sp("http://www.w3.org/2001/04/xmlenc#sha256")
+	case "fp512":
+		s = newSP(idpMetadata([]keyUse{{"signing", idp2.CertB64()}}))
+		sum := sha512.Sum512(idp1.Cert.Raw)
+		s.IDPCertificateFingerprint = sp(c09Fingerprint(sum[:]))
+		s.IDPCertificateFingerprintAlgorithm = sp("http://www.w3.org/2001/04/xmlenc#sha512")
+	default:
+		panic("unknown trust class " + in.Trust)
+	}
+	s.AllowIDPInitiated = in.AllowIdp
+	return s
+}
+
+// ---------------------------------------------------------------------------
 // LogoutResponse, AuthnRequest
 
-func (c *c09Ctx) logoutXML(l *c09Lo, extra string) []byte {
+func (c *c09Ctx) logoutXML(l *c09Lo, extra string, ki string) []byte {
 	k, _ := json.Marshal(l)
-	return c.memo(fmt.Sprintf("lo/%d/%s", len(extra), k), func() any {
+	mk := fmt.Sprintf("lo/%d/%s/%s", len(extra), ki, k)
+	return c.memo(mk, func() any {
 		el := etree.NewElement("samlp:LogoutResponse")
 		el.CreateAttr("xmlns:saml", nsAssertion)
 		el.CreateAttr("xmlns:samlp", nsProtocol)
@@ -403,6 +537,7 @@ func (c *c09Ctx) logoutXML(l *c09Lo, extra string) []byte {
 		}
 		if l.Sig {
 			el = signEnveloped(el, key("idp1"), SigOpts{})
+			c09SetKeyInfo(el, ki, mk)
 		}
 		return docBytes(el)
 	}).([]byte)
@@ -665,6 +800,85 @@ func c09DeepEntities(entity []byte, n int) []byte {
 	return []byte(b.String())
 }
 
+// c09NestBound is the nesting bound of the design (EntitiesDescriptor.UnmarshalXML, fixes/C09.md
+// section 2).  Only the concrete depths chosen for the classes and the model's prediction depend on
+// it; the oracle (a result or an error, the process stays alive) does not.
+const c09NestBound = 1000
+
+// c09NestWide is the number of completed siblings at the top of the wide-then-deep shape (more
+// than the bound: a count of elements instead of depth would show).
+const c09NestWide = 2000
+
+// c09NestLevels maps a depth class to the nesting depths that are executed.  "huge" is a depth at
+// which recursion without a bound exhausts the goroutine stack (about 5 kB per level against the
+// 1 GB limit: between 100 000 and 200 000 levels); it runs in a child process.
+func c09NestLevels(class string, rng *rand.Rand) []int {
+	switch class {
+	case "below":
+		return []int{c09NestBound - 1, 2 + rng.Intn(c09NestBound-3)}
+	case "at":
+		return []int{c09NestBound}
+	case "above":
+		return []int{c09NestBound + 1}
+	case "far":
+		if thorough() {
+			return []int{5 * c09NestBound, 12000 + rng.Intn(8000)}
+		}
+		return []int{5 * c09NestBound}
+	case "huge":
+		if thorough() {
+			return []int{1000000}
+		}
+		return []int{c09DeepEntityLevels}
+	}
+	panic("unknown depth class " + class)
+}
+
+// c09NestDoc nests EntitiesDescriptor elements `levels` deep in the given shape; entity (an
+// EntityDescriptor) is the last child of the outermost element, where the consumers look for it.
+func c09NestDoc(shape string, levels int, entity []byte) []byte {
+	const open, leaf, end = "<EntitiesDescriptor>", "<EntitiesDescriptor/>", "</EntitiesDescriptor>"
+	ent := string(entity)
+	if i := strings.Index(ent, "?>"); i >= 0 {
+		ent = ent[i+2:]
+	}
+	var b strings.Builder
+	b.Grow(len(ent) + levels*(len(open)+len(leaf)+len(end)) + c09NestWide*len(leaf) + 100)
+	times := func(n int, parts ...string) {
+		for i := 0; i < n; i++ {
+			for _, p := range parts {
+				b.WriteString(p)
+			}
+		}
+	}
+	b.WriteString(`<EntitiesDescriptor xmlns="` + c09NSMetadata + `" Name="nested federation">`)
+	n := levels - 1 // below the outermost element
+	switch shape {
+	case "chain":
+		times(n, open)
+		times(n, end)
+	case "ladder":
+		times(n, leaf, open)
+		times(n, end)
+	case "widedeep":
+		times(c09NestWide, leaf)
+		times(n, open)
+		times(n, end)
+	case "sibafter":
+		times(n, open)
+		if n > 0 {
+			b.WriteString(end)
+			times(n-1, leaf, end)
+			b.WriteString(leaf)
+		}
+	default:
+		panic("unknown nesting shape " + shape)
+	}
+	b.WriteString(ent)
+	b.WriteString(end)
+	return []byte(b.String())
+}
+
 // ---------------------------------------------------------------------------
 // observation
 
@@ -813,12 +1027,6 @@ func (b *c09Body) Read(p []byte) (int, error) {
 }
 func (b *c09Body) Close() error { return nil }
 
-func c09SP(allowIdp bool) *saml.ServiceProvider {
-	s := newSP(idpMetadata([]keyUse{{"signing", key("idp1").CertB64()}}))
-	s.AllowIDPInitiated = allowIdp
-	return s
-}
-
 func c09FormRequest(method, target string, form url.Values) *http.Request {
 	var r *http.Request
 	if method == "GET" {
@@ -917,12 +1125,12 @@ func (x c09Variant) encoded(good func(extra string) []byte, deflated bool) strin
 // c09RunResp: ParseXMLResponse, ParseResponse (POST form / SAMLart), ParseXMLArtifactResponse.
 func (c *c09Ctx) runResp(v *c09Vec, rng *rand.Rand) []c09Obs {
 	in := &v.In
-	s := c09SP(in.AllowIdp)
+	s := c09SPFor(in)
 	ids := []string{"id-00000000", c09ReqID}
 	var out []c09Obs
 	switch in.Entry {
 	case "xml", "post":
-		good := func(extra string) []byte { return docBytes(c.responseEl(in.Resp, extra)) }
+		good := func(extra string) []byte { return docBytes(c.responseEl(in.Resp, extra, in.Ki)) }
 		for _, x := range c09Frame(v, good, false, rng) {
 			o := c09Obs{Variant: x.name}
 			doc, data := x.doc(good), ""
@@ -941,7 +1149,7 @@ func (c *c09Ctx) runResp(v *c09Vec, rng *rand.Rand) []c09Obs {
 			out = append(out, o)
 		}
 	case "artxml":
-		good := func(extra string) []byte { return c.envelopeXML(in.Env, in.Resp, c09ResolveID, "ok", extra) }
+		good := func(extra string) []byte { return c.envelopeXML(in.Env, in.Resp, c09ResolveID, "ok", extra, in.Ki) }
 		for _, x := range c09Frame(v, good, false, rng) {
 			o := c09Obs{Variant: x.name}
 			doc := x.doc(good)
@@ -962,7 +1170,7 @@ func (c *c09Ctx) runResp(v *c09Vec, rng *rand.Rand) []c09Obs {
 				if m := reResolveID.FindSubmatch(req); m != nil {
 					id = string(m[1])
 				}
-				body := x.doc(func(extra string) []byte { return c.envelopeXML(in.Env, in.Resp, id, in.Res, extra) })
+				body := x.doc(func(extra string) []byte { return c.envelopeXML(in.Env, in.Resp, id, in.Res, extra, in.Ki) })
 				resp := &http.Response{StatusCode: 200, Status: "200 OK", Header: http.Header{"Content-Type": {"text/xml"}}, Request: r}
 				switch in.Res {
 				case "connerr":
@@ -1005,9 +1213,9 @@ var c09Watchdog = 10 * time.Second
 // c09RunLogout: ValidateLogoutResponseForm / Redirect / Request.
 func (c *c09Ctx) runLogout(v *c09Vec, rng *rand.Rand) []c09Obs {
 	in := &v.In
-	s := c09SP(false)
+	s := c09SPFor(in)
 	deflated := in.Entry == "redirect" || in.Entry == "req-get"
-	good := func(extra string) []byte { return c.logoutXML(in.Lo, extra) }
+	good := func(extra string) []byte { return c.logoutXML(in.Lo, extra, in.Ki) }
 	var out []c09Obs
 	for _, x := range c09Frame(v, good, deflated, rng) {
 		o := c09Obs{Variant: x.name}
@@ -1116,6 +1324,95 @@ func (c *c09Ctx) runAuthn(v *c09Vec, rng *rand.Rand) []c09Obs {
 	return out
 }
 
+// c09ConsumeMD hands a metadata document to one consumer and, where the consumer registers it,
+// goes on to use what was registered.
+func c09ConsumeMD(o *c09Obs, entry string, doc []byte, reqXML []byte) {
+	switch entry {
+	case "fetch":
+		cl := &http.Client{Transport: rtFunc(func(r *http.Request) (*http.Response, error) {
+			return &http.Response{StatusCode: 200, Status: "200 OK", Header: http.Header{}, Request: r,
+				Body: &c09Body{data: doc, chunk: 4096}}, nil
+		})}
+		md, err := samlsp.FetchMetadata(context.Background(), cl, mustURL(spMetadata))
+		if err == nil && md == nil {
+			o.Shape = "FetchMetadata returned neither metadata nor an error"
+		}
+		o.plainResult(err)
+	case "parse":
+		md, err := samlsp.ParseMetadata(doc)
+		if err == nil && md == nil {
+			o.Shape = "ParseMetadata returned neither metadata nor an error"
+		}
+		o.plainResult(err)
+	case "unmarshal-entities":
+		// the type's own UnmarshalXML, as a caller that handles federation aggregates uses it
+		o.plainResult(xml.Unmarshal(doc, &saml.EntitiesDescriptor{}))
+	case "unmarshal-sso", "unmarshal-make", "unmarshal-idpinit":
+		md := &saml.EntityDescriptor{}
+		if err := xml.Unmarshal(doc, md); err != nil {
+			o.plainResult(err)
+			return
+		}
+		idp := c09IdP(c09Provider{md})
+		if entry == "unmarshal-idpinit" {
+			w := httptest.NewRecorder()
+			idp.ServeIDPInitiated(w, c09FormRequest("GET", idpSSOURL, url.Values{}), spEntityID, "relay-1")
+			o.Calls = append(o.Calls, fmt.Sprintf("ServeIDPInitiated -> %d", w.Code))
+			if w.Code == 200 && strings.Contains(w.Body.String(), `name="SAMLResponse"`) {
+				o.Verdict = "ok"
+			} else {
+				o.Verdict, o.ErrMsg = "error", fmt.Sprintf("HTTP %d", w.Code)
+			}
+			return
+		}
+		if entry == "unmarshal-sso" {
+			c09Serve(o, idp, true, c09AuthnHTTP("GET", base64.StdEncoding.EncodeToString(c09Deflate(reqXML))))
+			return
+		}
+		// the stages of ServeSSO called one by one, as samlidp and custom servers do
+		req, err := saml.NewIdpAuthnRequest(idp, c09AuthnHTTP("POST", base64.StdEncoding.EncodeToString(reqXML)))
+		if err != nil {
+			o.plainResult(err)
+			return
+		}
+		if err := req.Validate(); err != nil {
+			o.plainResult(err)
+			return
+		}
+		if err := (saml.DefaultAssertionMaker{}).MakeAssertion(req, c09Sessions{}.GetSession(nil, nil, nil)); err != nil {
+			o.plainResult(err)
+			return
+		}
+		if err := req.MakeAssertionEl(); err != nil {
+			o.plainResult(err)
+			return
+		}
+		form, err := req.PostBinding()
+		if err == nil && form.SAMLResponse == "" {
+			o.Shape = "PostBinding returned an empty form without an error"
+		}
+		o.plainResult(err)
+	case "put-sso":
+		srv, err := newIdpSrv(&samlidp.MemoryStore{})
+		if err != nil {
+			panic(err)
+		}
+		pr := httptest.NewRequest("PUT", idpSrvRoot+"/services/sp1", bytes.NewReader(doc))
+		pr.Header.Set("Content-Type", "text/xml")
+		w := httptest.NewRecorder()
+		srv.ServeHTTP(w, pr)
+		o.Calls = append(o.Calls, fmt.Sprintf("PUT -> %d", w.Code))
+		if w.Code != http.StatusNoContent {
+			o.Verdict, o.ErrMsg = "error", fmt.Sprintf("PUT: HTTP %d", w.Code)
+			return
+		}
+		g := doHTTP(srv, httpReq{Method: "GET", URL: idpSrvRoot + "/services/sp1"})
+		o.Calls = append(o.Calls, fmt.Sprintf("GET -> %d", g.Code))
+		idp := c09IdP(srv)
+		c09Serve(o, idp, true, c09AuthnHTTP("POST", base64.StdEncoding.EncodeToString(reqXML)))
+	}
+}
+
 // runSPMD: the three metadata parsers, then the IdP's use of the registered metadata.
 func (c *c09Ctx) runSPMD(v *c09Vec, rng *rand.Rand) []c09Obs {
 	in := &v.In
@@ -1128,89 +1425,27 @@ func (c *c09Ctx) runSPMD(v *c09Vec, rng *rand.Rand) []c09Obs {
 		if v.In.Framing == "deep" {
 			doc = c09DeepEntities(good(""), c09DeepEntityLevels)
 		}
-		c09Guard(&o, c09Watchdog, func() {
-			switch in.Entry {
-			case "fetch":
-				cl := &http.Client{Transport: rtFunc(func(r *http.Request) (*http.Response, error) {
-					return &http.Response{StatusCode: 200, Status: "200 OK", Header: http.Header{}, Request: r,
-						Body: &c09Body{data: doc, chunk: 4096}}, nil
-				})}
-				md, err := samlsp.FetchMetadata(context.Background(), cl, mustURL(spMetadata))
-				if err == nil && md == nil {
-					o.Shape = "FetchMetadata returned neither metadata nor an error"
-				}
-				o.plainResult(err)
-			case "parse":
-				md, err := samlsp.ParseMetadata(doc)
-				if err == nil && md == nil {
-					o.Shape = "ParseMetadata returned neither metadata nor an error"
-				}
-				o.plainResult(err)
-			case "unmarshal-sso", "unmarshal-make", "unmarshal-idpinit":
-				md := &saml.EntityDescriptor{}
-				if err := xml.Unmarshal(doc, md); err != nil {
-					o.plainResult(err)
-					return
-				}
-				idp := c09IdP(c09Provider{md})
-				if in.Entry == "unmarshal-idpinit" {
-					w := httptest.NewRecorder()
-					idp.ServeIDPInitiated(w, c09FormRequest("GET", idpSSOURL, url.Values{}), spEntityID, "relay-1")
-					o.Calls = append(o.Calls, fmt.Sprintf("ServeIDPInitiated -> %d", w.Code))
-					if w.Code == 200 && strings.Contains(w.Body.String(), `name="SAMLResponse"`) {
-						o.Verdict = "ok"
-					} else {
-						o.Verdict, o.ErrMsg = "error", fmt.Sprintf("HTTP %d", w.Code)
-					}
-					return
-				}
-				if in.Entry == "unmarshal-sso" {
-					c09Serve(&o, idp, true, c09AuthnHTTP("GET", base64.StdEncoding.EncodeToString(c09Deflate(reqXML))))
-					return
-				}
-				// the stages of ServeSSO called one by one, as samlidp and custom servers do
-				req, err := saml.NewIdpAuthnRequest(idp, c09AuthnHTTP("POST", base64.StdEncoding.EncodeToString(reqXML)))
-				if err != nil {
-					o.plainResult(err)
-					return
-				}
-				if err := req.Validate(); err != nil {
-					o.plainResult(err)
-					return
-				}
-				if err := (saml.DefaultAssertionMaker{}).MakeAssertion(req, c09Sessions{}.GetSession(nil, nil, nil)); err != nil {
-					o.plainResult(err)
-					return
-				}
-				if err := req.MakeAssertionEl(); err != nil {
-					o.plainResult(err)
-					return
-				}
-				form, err := req.PostBinding()
-				if err == nil && form.SAMLResponse == "" {
-					o.Shape = "PostBinding returned an empty form without an error"
-				}
-				o.plainResult(err)
-			case "put-sso":
-				srv, err := newIdpSrv(&samlidp.MemoryStore{})
-				if err != nil {
-					panic(err)
-				}
-				pr := httptest.NewRequest("PUT", idpSrvRoot+"/services/sp1", bytes.NewReader(doc))
-				pr.Header.Set("Content-Type", "text/xml")
-				w := httptest.NewRecorder()
-				srv.ServeHTTP(w, pr)
-				o.Calls = append(o.Calls, fmt.Sprintf("PUT -> %d", w.Code))
-				if w.Code != http.StatusNoContent {
-					o.Verdict, o.ErrMsg = "error", fmt.Sprintf("PUT: HTTP %d", w.Code)
-					return
-				}
-				g := doHTTP(srv, httpReq{Method: "GET", URL: idpSrvRoot + "/services/sp1"})
-				o.Calls = append(o.Calls, fmt.Sprintf("GET -> %d", g.Code))
-				idp := c09IdP(srv)
-				c09Serve(&o, idp, true, c09AuthnHTTP("POST", base64.StdEncoding.EncodeToString(reqXML)))
-			}
-		})
+		c09Guard(&o, c09Watchdog, func() { c09ConsumeMD(&o, in.Entry, doc, reqXML) })
+		out = append(out, o)
+	}
+	return out
+}
+
+// runNest: EntitiesDescriptor elements nested in a shape to a depth, through the metadata consumers.
+func (c *c09Ctx) runNest(v *c09Vec, rng *rand.Rand) []c09Obs {
+	in := &v.In
+	var entity []byte
+	if in.Entry == "put-sso" {
+		entity = c09SPMetadataXML(in.Md, "")
+	} else {
+		entity = c09IDPMetadataXML(&c09MD{Wrap: "entity", NIDP: 1, SSO: true, KDs: []c09KD{{Use: "signing", Ki: "c1"}}})
+	}
+	reqXML := c.authnXML(in.Rq, "")
+	var out []c09Obs
+	for _, n := range c09NestLevels(in.Depth, rng) {
+		o := c09Obs{Variant: fmt.Sprintf("%s-%d", in.Shape, n)}
+		doc := c09NestDoc(in.Shape, n, entity)
+		c09Guard(&o, c09Watchdog, func() { c09ConsumeMD(&o, in.Entry, doc, reqXML) })
 		out = append(out, o)
 	}
 	return out
@@ -1222,8 +1457,8 @@ func (c *c09Ctx) runIDPMD(v *c09Vec, rng *rand.Rand) []c09Obs {
 	doc := c09IDPMetadataXML(in.Md)
 	o := c09Obs{Variant: "ok"}
 	resp := docBytes(c.responseEl(&c09Resp{Iss: true, Dest: true, Irt: true, Status: "ok", Sig: true,
-		Assns: []c09Assn{{Iss: true, Subj: true, NameID: true, Confs: []string{"data"}, Cond: "aud", Authn: true, Attr: true, Sig: true, Enc: "no"}}}, ""))
-	lo := c.logoutXML(&c09Lo{Iss: true, Dest: true, Status: "ok", Sig: true, II: true, Irt: true}, "")
+		Assns: []c09Assn{{Iss: true, Subj: true, NameID: true, Confs: []string{"data"}, Cond: "aud", Authn: true, Attr: true, Sig: true, Enc: "no"}}}, "", ""))
+	lo := c.logoutXML(&c09Lo{Iss: true, Dest: true, Status: "ok", Sig: true, II: true, Irt: true}, "", "")
 	c09Guard(&o, c09Watchdog, func() {
 		md, err := samlsp.ParseMetadata(doc)
 		if err != nil {
@@ -1260,6 +1495,8 @@ func (c *c09Ctx) runIDPMD(v *c09Vec, rng *rand.Rand) []c09Obs {
 
 func (c *c09Ctx) run(v *c09Vec, rng *rand.Rand) []c09Obs {
 	switch {
+	case v.In.Fam == "nest":
+		return c.runNest(v, rng)
 	case c09RespEntries[v.In.Entry]:
 		return c.runResp(v, rng)
 	case v.In.Lo != nil && (v.In.Entry == "form" || v.In.Entry == "redirect" || strings.HasPrefix(v.In.Entry, "req-")):
